@@ -86,3 +86,30 @@ def tconc(case):
     want = case.get('name')
     bad = [dict(case=k, **(v[1] or {})) for k, v in sorted(res.items()) if not v[0] and (want is None or k == want)]
     return dict(reproduced=bool(bad), failing=bad[:4], statement='taylor: n+1 coefficients, not degenerate/failed with defaults, error within 100 x estimate + 100 x floor')
+
+
+@reg('C17.stages')
+def stages(case):
+    """_get_best_taylor_coefficients for 3..9 radii: returns (never raises); with fewer than three extrapolants the last extrapolant
+    and the rounding floor, otherwise values selected from dea3 of the extrapolants; then the property-level replay"""
+    import numdifftools.fornberg as fb
+    rng = np.random.default_rng(3)
+    m = 8
+    bad = []
+    for nk in range(3, 10):
+        rs = list(0.5 * 1.3 ** np.arange(nk))
+        bs = [rng.normal(size=m) + 1j * rng.normal(size=m) for _ in range(nk)]
+        try:
+            with warnings.catch_warnings():
+                warnings.simplefilter('ignore')
+                coefs, errors = fb._get_best_taylor_coefficients(bs, rs, m, lambda: 1.0)
+        except Exception as e:
+            bad.append(dict(radii=nk, extrapolants=nk - 2, raised=repr(e)[:120])); continue
+        ext = fb._extrapolate(bs, rs, m)
+        if np.shape(coefs) != (m,) or np.shape(errors) != (m,):
+            bad.append(dict(radii=nk, shapes=(np.shape(coefs), np.shape(errors))))
+        elif nk - 2 < 3 and not np.array_equal(coefs, ext[-1]):
+            bad.append(dict(radii=nk, problem='fewer than three extrapolants: the last extrapolant is not what is returned'))
+    if not bad:
+        return taylor_replay(dict(group='acceleration-stages'))
+    return dict(reproduced=bool(bad), failing=bad[:3])
